@@ -687,6 +687,17 @@ def gen_case(seed, profile='edit'):
             ops.append(['q_value', rng.randrange(nvars)])
         elif k == 'setinit':
             ops.append(['setinit', rng.randrange(nbase), rng.choice(['1', '-2', '0.5', '4', '0'])])
+    if profile == 'annot' and rng.random() < 0.35:
+        # an id that moves away from a variable whose annotations were looked at, and a NEW id for that variable: the
+        # annotations of the old id stay with its new carrier, also when the first variable is removed
+        with_id = [i for i, b in enumerate(base) if b[1] is not None]
+        if with_id and nbase >= 2:
+            v = rng.choice(with_id)
+            w = rng.choice([i for i in range(nbase) if i != v])
+            pat = [['triple', base[v][1], 0, 1], ['q_annot', v], ['transfer', v, w], ['addcmeta', v], ['q_annot', v],
+                   ['q_annot', w], ['q_byrdf', 0, 1], ['rmvar', v], ['q_annot', w], ['q_byrdf', 0, 1], ['q_bycmeta', base[v][1]]]
+            at = rng.randrange(len(ops) + 1) if rng.random() < 0.5 else 0
+            ops[at:at] = pat
     # always end with the full set of queries
     for qn in queries:
         ops.append([qn])
